@@ -2181,6 +2181,9 @@ class C17(Prop):
         import copy
 
         ev2 = []
+        groups = {}  # canonical handle -> handles (itself and its aliases) the caller still holds
+        for a, c in aliases.items():
+            groups.setdefault(c, {c}).add(a)
         for e in hist["events"]:
             if e["k"] == "conv" and e.get("out") in aliases:
                 continue
@@ -2191,8 +2194,13 @@ class C17(Prop):
             for key in ("tgt", "src", "h"):
                 if key in e2 and e2[key] in aliases and e2["k"] != "drop":
                     e2[key] = aliases[e2[key]]
-            if e2["k"] == "drop" and e2.get("kind") == "T" and (e2["h"] in aliases or e2["h"] in set(aliases.values())):
-                continue  # one tensor behind several handles: it stays alive as long as any of them
+            if e2["k"] == "drop" and e2.get("kind") == "T" and (e2["h"] in aliases or e2["h"] in groups):
+                # one tensor behind several handles: it stays alive as long as any of them is held
+                c = aliases.get(e2["h"], e2["h"])
+                groups[c].discard(e2["h"])
+                if groups[c]:
+                    continue
+                e2["h"] = c
             ev2.append(e2)
         tw = run_twin(hist, ev2)
         compare_checkpoints(w, tw, "C17", "C17.astensor_identity_twin", grads="all", skip_handles=set(aliases), what="astensor-calls-removed")
